@@ -200,7 +200,21 @@ pub(crate) trait Tasks<Item> {
     fn add_task(&self, item: Item) -> Self::Task;
     fn run_task(&self, item: Item) {
         let task = self.add_task(item);
+        #[cfg(zcash_librustzcash_verif)]
+        let Some(task) = crate::verif_hooks::intercept_spawn(move || task.run()).map(VerifDeferred)
+        else {
+            return;
+        };
         rayon::spawn_fifo(|| task.run());
+    }
+}
+
+#[cfg(zcash_librustzcash_verif)]
+struct VerifDeferred<F>(F);
+#[cfg(zcash_librustzcash_verif)]
+impl<F: FnOnce() + Send + 'static> Task for VerifDeferred<F> {
+    fn run(self) {
+        (self.0)()
     }
 }
 
@@ -519,6 +533,9 @@ where
         ivks: impl Iterator<Item = (IvkTag, D::IncomingViewingKey)>,
     ) -> Self {
         let (tags, ivks) = ivks.unzip();
+        #[cfg(zcash_librustzcash_verif)]
+        let batch_size_threshold =
+            crate::verif_hooks::knob("batch_size_threshold", batch_size_threshold);
         Self {
             batch_size_threshold,
             acc: Batch::new(tags, ivks),
